@@ -181,6 +181,11 @@ impl BaseGrid {
             return Err(Error::General("Malformed grid"));
         }
 
+        // Interpolation needs at least one cell
+        if rows < 2 || cols < 2 {
+            return Err(Error::General("Malformed grid"));
+        }
+
         Ok(BaseGrid {
             lat_n,
             lat_s,
